@@ -317,6 +317,7 @@ Proof.
   - exact (i_qwf _ I').
   - exact (i_qnd _ I').
   - pose proof (i_height _ I'). lia.
+  - exact (i_seq _ I').
 Qed.
 
 (** ** CreatePool *)
@@ -385,7 +386,7 @@ Proof.
   pose proof (deduct_fee_bal _ _ _ Hfee HwF HwC) as Hb1.
   constructor; simpl.
   - apply Forall_vals_set; [exact (i_pools _ I)|exact PI0].
-  - apply Forall_forall. intros x Hx. destruct (keys_set_in _ _ _ _ Hx) as [->|Hin]; [lia|].
+  - pose proof (i_seq _ I) as Hseq. apply Forall_forall. intros x Hx. destruct (keys_set_in _ _ _ _ Hx) as [->|Hin]; [unfold id; lia|].
     pose proof (i_ids _ I) as Hids. rewrite Forall_forall in Hids. specialize (Hids _ Hin). lia.
   - intros d. rewrite (escrow_set_new _ _ _ d Hnone). rewrite Hb2. destruct (Hb1 d) as [-> _]. rewrite (i_escrow _ I d).
     rewrite (moved_many_to who FARM) by exact HwF. rewrite pool_contrib_eq. simpl.
@@ -409,6 +410,7 @@ Proof.
     + inversion Heq; subst. exists p0. rewrite get_set_same. split; reflexivity.
   - apply NoDup_enqueue. exact (i_qnd _ I).
   - exact Hh.
+  - pose proof (i_seq _ I). lia.
 Qed.
 
 (** ** AdjustPool *)
